@@ -95,7 +95,13 @@ class NumpyBackendProvider(BackendProvider):
 
     def power(self, a, b):
         """Compute a^b, returning integer if result is whole number."""
-        r = np.power(float(a) if isinstance(a, (int, np.integer)) else a, b)
+        if isinstance(a, (int, np.integer)):
+            a = float(a)
+        elif isinstance(a, np.ndarray) and a.dtype.kind in 'iub':
+            # same as for an integer atom: numpy refuses integer arrays to
+            # negative integer powers, and Power makes whole results integers again
+            a = a.astype(float)
+        r = np.power(a, b)
         return r
 
     def str_to_char_array(self, s):
